@@ -30,17 +30,19 @@ theorem wf_ctor [One α] [Div α] [NatCast α] (kind : Kind) (k l c d : Nat) (q 
 /-- Each operation (construction, copy, base-class copy, the three `resize`s, noise augmentation with
     any matrix, `+=`, `+`, element writes, fills) keeps every live object well-formed. -/
 theorem wf_step [Zero α] [One α] [Div α] [NatCast α] (p p' : Pool α) (op : Op α) (hp : PoolWF p)
-    (h : step p op = Outcome.ok p') : PoolWF p' :=
-  wf_step_pool p p' op hp h
+    (hd : Disciplined p op) (h : step p op = Outcome.ok p') : PoolWF p' :=
+  wf_step_pool p p' op hp hd h
 
 /-- After any sequence of operations every live object is well-formed. -/
-theorem wf_of_ops [Zero α] [One α] [Div α] [NatCast α] (ops : List (Op α)) : PoolWF (run ops).1 :=
-  wf_runFrom ops emptyPool poolWF_empty
+theorem wf_of_ops [Zero α] [One α] [Div α] [NatCast α] (ops : List (Op α))
+    (hd : DisciplinedFrom emptyPool ops) : PoolWF (run ops).1 :=
+  wf_runFrom ops emptyPool poolWF_empty hd
 
 /-- An operation touches only its destination: copies are deep, operands are left alone. -/
 theorem op_frame [Zero α] [One α] [Div α] [NatCast α] (p p' : Pool α) (op : Op α)
-    (h : step p op = Outcome.ok p') (t : Nat) (ht : t ≠ op.dst) : p' t = p t :=
-  step_frame p p' op h t ht
+    (h : step p op = Outcome.ok p') (t : Nat) (ht : t ≠ op.dst) (hmv : ∀ d s, op = Op.move d s → t ≠ s) :
+    p' t = p t :=
+  step_frame p p' op h t ht hmv
 
 /-! ### Per-component accessors address exactly that component's block -/
 
@@ -190,6 +192,46 @@ theorem augment_nonsquare_unchanged [Zero α] (x : Container α) (qr qc : Nat) (
     augment x qr qc q = some (x, false) :=
   augment_nonsquare x qr qc q h
 
+/-- General form (`Q` given as cells, possibly read from the object itself).
+    `augmentWithNoise(Q)` with an `a × a` matrix on a well-formed container (which may already
+    carry noise from earlier augmentations): no assertion, returns `true`; the noise, total and
+    covariance sizes grow by `a`, nothing else changes in the layout; every component's mean is
+    `[m; 0]` and every component's covariance is `blockdiag(P, Q)` — `P` being the whole previous
+    covariance block; weights and particle states are not touched. -/
+theorem augmentO_mean_cov [Zero α] (x : Container α) (h : WF x) (a : Nat) (q : Nat → Nat → Option α) :
+    ∃ y, augmentO x a a q = some (y, true) ∧ WF y ∧
+      y.components = x.components ∧ y.kind = x.kind ∧ y.useQuaternion = x.useQuaternion ∧
+      y.dimCircularComponent = x.dimCircularComponent ∧ y.dimLinear = x.dimLinear ∧
+      y.dimCircular = x.dimCircular ∧ y.dimNoise = x.dimNoise + a ∧ y.dim = x.dim + a ∧
+      y.dimCovariance = x.dimCovariance + a ∧ y.weight = x.weight ∧ y.state = x.state ∧
+      (∀ i, i < x.components →
+        (∀ r, r < x.dim → y.mean.get r (meanBlock y i).1 = x.mean.get r (meanBlock x i).1) ∧
+        (∀ r, r < a → y.mean.get (x.dim + r) (meanBlock y i).1 = some 0) ∧
+        (∀ r c, r < x.dimCovariance → c < x.dimCovariance →
+          y.cov.get r ((covBlock y i).1 + c) = x.cov.get r ((covBlock x i).1 + c)) ∧
+        (∀ r c, r < x.dimCovariance → c < a →
+          y.cov.get r ((covBlock y i).1 + (x.dimCovariance + c)) = some 0) ∧
+        (∀ r c, r < a → c < x.dimCovariance →
+          y.cov.get (x.dimCovariance + r) ((covBlock y i).1 + c) = some 0) ∧
+        (∀ r c, r < a → c < a →
+          y.cov.get (x.dimCovariance + r) ((covBlock y i).1 + (x.dimCovariance + c)) = q r c)) := by
+  obtain ⟨m2, hm2, he⟩ := augmentO_square x a q h.meanCols
+  have hwf : WF (augmented x a q m2) := wf_augmentO x h a a q _ true he
+  refine ⟨augmented x a q m2, he, hwf, rfl, rfl, rfl, rfl, rfl, rfl, rfl, rfl, rfl, rfl, rfl, ?_⟩
+  intro i hi
+  obtain ⟨hmean1, hmean2⟩ := augment_mean x h a m2 hm2 i hi
+  obtain ⟨c1, c2, c3, c4⟩ := augmented_cov x h a q m2 i hi
+  have e : ∀ c, (covBlock (augmented x a q m2) i).1 + c = i * (x.dimCovariance + a) + c := by
+    intro c; simp only [covBlock, augmented]; rw [Nat.mul_comm]
+  have e' : ∀ c, (covBlock x i).1 + c = i * x.dimCovariance + c := by
+    intro c; simp only [covBlock]; rw [Nat.mul_comm]
+  refine ⟨hmean1, ?_, ?_, ?_, ?_, ?_⟩
+  · intro r hr; exact hmean2 (x.dim + r) (by omega) (by omega)
+  · intro r c hr hc; rw [e, e']; exact c1 r c hr hc
+  · intro r c hr hc; rw [e, ← Nat.add_assoc]; exact c2 r c hr hc
+  · intro r c hr hc; rw [e]; exact c3 r c hr hc
+  · intro r c hr hc; rw [e, ← Nat.add_assoc]; exact c4 r c hr hc
+
 /-- `augmentWithNoise(Q)` with an `a × a` matrix on a well-formed container (which may already
     carry noise from earlier augmentations): no assertion, returns `true`; the noise, total and
     covariance sizes grow by `a`, nothing else changes in the layout; every component's mean is
@@ -211,23 +253,8 @@ theorem augment_mean_cov [Zero α] (x : Container α) (h : WF x) (a : Nat) (q : 
         (∀ r c, r < a → c < x.dimCovariance →
           y.cov.get (x.dimCovariance + r) ((covBlock y i).1 + c) = some 0) ∧
         (∀ r c, r < a → c < a →
-          y.cov.get (x.dimCovariance + r) ((covBlock y i).1 + (x.dimCovariance + c)) = some (q r c))) := by
-  obtain ⟨m2, hm2, he⟩ := augment_square x a q h.meanCols
-  have hwf : WF (augmented x a q m2) := wf_augment x h a a q _ true he
-  refine ⟨augmented x a q m2, he, hwf, rfl, rfl, rfl, rfl, rfl, rfl, rfl, rfl, rfl, rfl, rfl, ?_⟩
-  intro i hi
-  obtain ⟨hmean1, hmean2⟩ := augment_mean x h a m2 hm2 i hi
-  obtain ⟨c1, c2, c3, c4⟩ := augmented_cov x h a q m2 i hi
-  have e : ∀ c, (covBlock (augmented x a q m2) i).1 + c = i * (x.dimCovariance + a) + c := by
-    intro c; simp only [covBlock, augmented]; rw [Nat.mul_comm]
-  have e' : ∀ c, (covBlock x i).1 + c = i * x.dimCovariance + c := by
-    intro c; simp only [covBlock]; rw [Nat.mul_comm]
-  refine ⟨hmean1, ?_, ?_, ?_, ?_, ?_⟩
-  · intro r hr; exact hmean2 (x.dim + r) (by omega) (by omega)
-  · intro r c hr hc; rw [e, e']; exact c1 r c hr hc
-  · intro r c hr hc; rw [e, ← Nat.add_assoc]; exact c2 r c hr hc
-  · intro r c hr hc; rw [e]; exact c3 r c hr hc
-  · intro r c hr hc; rw [e, ← Nat.add_assoc]; exact c4 r c hr hc
+          y.cov.get (x.dimCovariance + r) ((covBlock y i).1 + (x.dimCovariance + c)) = some (q r c))) :=
+  augmentO_mean_cov x h a (fun r c => some (q r c))
 
 /-- A second augmentation: `blockdiag(P, Q₁, Q₂)` and means `[m; 0; 0]` for every component. -/
 theorem augment_twice [Zero α] (x : Container α) (h : WF x) (a b : Nat) (q1 q2 : Nat → Nat → α) :
@@ -364,17 +391,18 @@ theorem concat_equal_layout (x rhs : Container α) (hx : WF x) (hr : WF rhs) (hx
 /-! ### The model stops only on misuse -/
 
 /-- A legal step never trips an assertion: on a pool of well-formed objects the only operations the
-    model stops at are `a += a` and a concatenation whose operands `concat_requires` refuses, and element
-    writes outside the storage. -/
+    model stops at are a concatenation whose operands `concat_requires` refuses, element writes outside
+    the storage, and `augmentWithNoise(covariance(i))` with `i` not a component. -/
 theorem step_assert_only_on_misuse [Zero α] [One α] [Div α] [NatCast α] (p : Pool α) (hp : PoolWF p) (op : Op α)
     (h : step p op = Outcome.assert) :
-    (∃ d s, op = Op.concatAssign d s ∧ (d = s ∨ ∃ x r, p d = some x ∧ p s = some r ∧ concat x r = none)) ∨
+    (∃ d s x r, op = Op.concatAssign d s ∧ p d = some x ∧ p s = some r ∧ concat x r = none) ∨
     (∃ d a b x r, op = Op.concatPlus d a b ∧ p a = some x ∧ p b = some r ∧ concat x r = none) ∨
     (∃ s i j v x, op = Op.writeMean s i j v ∧ p s = some x ∧ ¬ (j < x.mean.rows ∧ i < x.mean.cols)) ∨
     (∃ s i j k v x, op = Op.writeCov s i j k v ∧ p s = some x ∧
       ¬ (j < x.cov.rows ∧ x.dimCovariance * i + k < x.cov.cols)) ∨
     (∃ s i v x, op = Op.writeWeight s i v ∧ p s = some x ∧ ¬ (i < x.weight.rows ∧ 0 < x.weight.cols)) ∨
-    (∃ s i j v x, op = Op.writeState s i j v ∧ p s = some x ∧ ¬ (j < x.state.rows ∧ i < x.state.cols)) := by
+    (∃ s i j v x, op = Op.writeState s i j v ∧ p s = some x ∧ ¬ (j < x.state.rows ∧ i < x.state.cols)) ∨
+    (∃ s i x, op = Op.augmentSelf s i ∧ p s = some x ∧ ¬ i < x.components) := by
   have onSlot_assert : ∀ {s : Nat} {ok : Container α → Bool} {f : Container α → Option (Container α)},
       onSlot p s ok f = Outcome.assert → ∃ x, p s = some x ∧ f x = none := by
     intro s ok f hh
@@ -387,9 +415,9 @@ theorem step_assert_only_on_misuse [Zero α] [One α] [Div α] [NatCast α] (p :
       · cases hh
       · next hf => exact ⟨x, hx, hf⟩
   cases op with
-  | ctorDefault dst kind => simp [step] at h
-  | ctorDim dst kind k d => simp only [step] at h; split_ifs at h
-  | ctorLayout dst kind k l c q => simp only [step] at h; split_ifs at h
+  | ctorDefault dst kind init => simp [step] at h
+  | ctorDim dst kind k d init => simp only [step] at h; split_ifs at h
+  | ctorLayout dst kind k l c q init => simp only [step] at h; split_ifs at h
   | copy dst src => simp only [step] at h; split at h <;> cases h
   | slice dst src => simp only [step] at h; split at h <;> cases h
   | resize s k l c =>
@@ -417,11 +445,10 @@ theorem step_assert_only_on_misuse [Zero α] [One α] [Div α] [NatCast α] (p :
     simp only [step] at h
     split at h
     · next x r hx hr =>
-      split_ifs at h with hk hds hpos
-      · exact ⟨dst, src, rfl, Or.inl hds⟩
-      · split at h
-        · cases h
-        · next hc => exact ⟨dst, src, rfl, Or.inr ⟨x, r, hx, hr, hc⟩⟩
+      split_ifs at h with hk
+      split at h
+      · cases h
+      · next hc => exact ⟨dst, src, x, r, rfl, hx, hr, hc⟩
     · cases h
   | concatPlus dst a b =>
     right; left
@@ -455,12 +482,32 @@ theorem step_assert_only_on_misuse [Zero α] [One α] [Div α] [NatCast α] (p :
     intro hc
     simp [writeWeight, Sto.write, hc] at hf
   | writeState s i j v =>
-    right; right; right; right; right
+    right; right; right; right; right; left
     simp only [step] at h
     obtain ⟨x, hx, hf⟩ := onSlot_assert h
     refine ⟨s, i, j, v, x, rfl, hx, ?_⟩
     intro hc
     simp [writeState, Sto.write, hc] at hf
+  | augmentSelf s i =>
+    right; right; right; right; right; right
+    simp only [step] at h
+    obtain ⟨x, hx, hf⟩ := onSlot_assert h
+    refine ⟨s, i, x, rfl, hx, ?_⟩
+    intro hi
+    have hw := hp s x hx
+    have hr := covBlock_in_range x hw i hi
+    simp only [covBlock] at hr
+    obtain ⟨y, hy, _⟩ := augmentO_mean_cov x hw x.dimCovariance (fun r c => x.cov.get r (x.dimCovariance * i + c))
+    simp only [augmentSelf, if_pos hr, hw.covRows, hy] at hf
+    cases hf
+  | move dst src =>
+    simp only [step] at h
+    split at h
+    · split_ifs at h
+    · cases h
+  | baseAssign dst src =>
+    simp only [step] at h
+    split at h <;> cases h
   | fill s val =>
     simp only [step] at h
     obtain ⟨x, hx, hf⟩ := onSlot_assert h
@@ -468,6 +515,116 @@ theorem step_assert_only_on_misuse [Zero α] [One α] [Div α] [NatCast α] (p :
     obtain ⟨y, hy⟩ := fill_defined x val (hp s x hx)
     rw [hy] at hf
     cases hf
+
+/-! ### Aliasing, hand-over through base references, build configuration -/
+
+/-- `g.augmentWithNoise(g.covariance(i))` (the argument aliases the object's own storage; the
+    function copies it first): every component `j` becomes `blockdiag(P_j, P_i)` with `P_i` the
+    block as it was before the call, means `[m; 0]`. -/
+theorem augment_self [Zero α] (x : Container α) (h : WF x) (i : Nat) (hi : i < x.components) :
+    ∃ y, augmentSelf x i = some (y, true) ∧ WF y ∧ y.components = x.components ∧
+      y.dimNoise = x.dimNoise + x.dimCovariance ∧ y.dim = x.dim + x.dimCovariance ∧
+      y.dimCovariance = x.dimCovariance + x.dimCovariance ∧
+      (∀ j, j < x.components →
+        (∀ r, r < x.dim → y.mean.get r (meanBlock y j).1 = x.mean.get r (meanBlock x j).1) ∧
+        (∀ r, r < x.dimCovariance → y.mean.get (x.dim + r) (meanBlock y j).1 = some 0) ∧
+        (∀ r c, r < x.dimCovariance → c < x.dimCovariance →
+          y.cov.get r ((covBlock y j).1 + c) = x.cov.get r ((covBlock x j).1 + c)) ∧
+        (∀ r c, r < x.dimCovariance → c < x.dimCovariance →
+          y.cov.get (x.dimCovariance + r) ((covBlock y j).1 + (x.dimCovariance + c))
+            = x.cov.get r ((covBlock x i).1 + c)) ∧
+        (∀ r c, r < x.dimCovariance → c < x.dimCovariance →
+          y.cov.get r ((covBlock y j).1 + (x.dimCovariance + c)) = some 0 ∧
+          y.cov.get (x.dimCovariance + r) ((covBlock y j).1 + c) = some 0)) := by
+  have hr := covBlock_in_range x h i hi
+  simp only [covBlock] at hr
+  obtain ⟨y, hy, hw, hk, _, _, _, _, _, hn, hd, hdc, _, _, hc⟩ :=
+    augmentO_mean_cov x h x.dimCovariance (fun r c => x.cov.get r (x.dimCovariance * i + c))
+  refine ⟨y, by simp only [augmentSelf, if_pos hr, h.covRows, hy], hw, hk, hn, hd, hdc, ?_⟩
+  intro j hj
+  obtain ⟨m1, m2, c1, c2, c3, c4⟩ := hc j hj
+  exact ⟨m1, m2, c1, fun r c hr' hc' => by rw [c4 r c hr' hc']; rfl, fun r c hr' hc' => ⟨c2 r c hr' hc', c3 r c hr' hc'⟩⟩
+
+/-- Move construction / move assignment hands over exactly the source object (the classes have no
+    move operations of their own, a move is a copy); the source slot is not used afterwards. -/
+theorem move_is_copy [Zero α] [One α] [Div α] [NatCast α] (p : Pool α) (dst src : Nat) (x : Container α)
+    (hx : p src = some x) (hne : dst ≠ src) :
+    ∃ p', step p (Op.move dst src) = Outcome.ok p' ∧ p' dst = some x ∧ p' src = none ∧
+      ∀ t, t ≠ dst → t ≠ src → p' t = p t := by
+  refine ⟨fun t => if t = src then none else (p.set dst x) t, by simp only [step, hx, if_neg hne], ?_, ?_, ?_⟩
+  · simp [Pool.set, hne]
+  · simp
+  · intro t h1 h2; simp [Pool.set, h1, h2]
+
+/-- `static_cast<GaussianMixture&>(dst) = src` (what `pred_state = prev_state` does inside the
+    prediction classes, also on particle sets and Gaussians held by base reference): the mixture part
+    of `dst` — all eight fields, means, covariances, weights — becomes that of `src`, class and
+    particle state stay; the result is well-formed exactly when the discipline holds. -/
+theorem base_assign [Zero α] [One α] [Div α] [NatCast α] (p : Pool α) (dst src : Nat) (x r : Container α)
+    (hx : p dst = some x) (hr : p src = some r) (hwr : WF r) :
+    ∃ p' y, step p (Op.baseAssign dst src) = Outcome.ok p' ∧ p' dst = some y ∧
+      y.kind = x.kind ∧ y.state = x.state ∧ y.mean = r.mean ∧ y.cov = r.cov ∧ y.weight = r.weight ∧
+      y.components = r.components ∧ y.dim = r.dim ∧ y.dimLinear = r.dimLinear ∧ y.dimCircular = r.dimCircular ∧
+      y.dimNoise = r.dimNoise ∧ y.dimCovariance = r.dimCovariance ∧ y.useQuaternion = r.useQuaternion ∧
+      (WF y ↔ ((x.kind = Kind.ps → x.state.rows = r.dim - r.dimNoise ∧ x.state.cols = r.components) ∧
+               (x.kind = Kind.gaussian → r.components = 1))) := by
+  refine ⟨p.set dst { r with kind := x.kind, state := x.state }, { r with kind := x.kind, state := x.state },
+    by simp only [step, hx, hr], by simp [Pool.set],
+    rfl, rfl, rfl, rfl, rfl, rfl, rfl, rfl, rfl, rfl, rfl, rfl, ?_⟩
+  obtain ⟨hpos, hdcc, hdim, hdcov, hmr, hmc, hcr, hcc, hwr', hwc, _, _, _⟩ := hwr
+  constructor
+  · intro hy
+    exact ⟨fun hk => ⟨hy.stateRows hk, hy.stateCols hk⟩, fun hk => hy.gaussian hk⟩
+  · intro hd
+    exact ⟨hpos, hdcc, hdim, hdcov, hmr, hmc, hcr, hcc, hwr', hwc, fun hk => (hd.1 hk).1, fun hk => (hd.1 hk).2,
+      fun hk => hd.2 hk⟩
+
+/-- The discipline is necessary (1): the inherited `GaussianMixture::resize` applied to a `Gaussian`
+    with 3 components yields an object whose fields and storage agree, but `Gaussian::covariance()`
+    (the whole matrix, 2 × 6) is no longer component 0's block (2 × 2). -/
+theorem base_resize_counterexample :
+    let g : Container Nat := resize (ctorLayout Kind.gaussian 1 2 0 false) 3 2 0
+    ¬ WF g ∧ g.components = 3 ∧ g.cov.cols = 6 ∧ covBlock g 0 = (0, 2) := by
+  refine ⟨fun h => ?_, rfl, rfl, rfl⟩
+  have := h.gaussian rfl
+  exact absurd this (by decide)
+
+/-- The discipline is necessary (2): assigning a 3-component mixture through base references onto a
+    2-particle set leaves 3 means over 2 particle states. -/
+theorem base_assign_counterexample :
+    ∃ p' y, step (α := Nat) (fun t => if t = 0 then some (ctorLayout Kind.ps 2 2 0 false)
+        else if t = 1 then some (ctorLayout Kind.gm 3 2 0 false) else none) (Op.baseAssign 0 1) = Outcome.ok p' ∧
+      p' 0 = some y ∧ y.components = 3 ∧ y.mean.cols = 3 ∧ y.state.cols = 2 ∧ ¬ WF y := by
+  refine ⟨_, _, rfl, rfl, rfl, rfl, rfl, fun h => ?_⟩
+  have := h.stateCols rfl
+  exact absurd this (by decide)
+
+/-- Contents under the build configuration `init` (`some 0` with EIGEN_INITIALIZE_MATRICES_BY_ZERO):
+    a constructor leaves every mean, covariance and particle-state coefficient at `init`. -/
+theorem ctor_contents [One α] [Div α] [NatCast α] (kind : Kind) (k l c : Nat) (q : Bool) (init : Option α)
+    (r j : Nat) :
+    let x : Container α := ctorFull kind k l c q init
+    (r < x.mean.rows → j < x.mean.cols → x.mean.get r j = init) ∧
+    (r < x.cov.rows → j < x.cov.cols → x.cov.get r j = init) ∧
+    (kind = Kind.ps → r < x.state.rows → j < x.state.cols → x.state.get r j = init) ∧ x.init = init := by
+  refine ⟨?_, ?_, ?_, rfl⟩
+  · intro h1 h2; simp only [ctorFull, Sto.fresh_rows, Sto.fresh_cols] at h1 h2 ⊢; rw [Sto.fresh_get, if_pos ⟨h1, h2⟩]
+  · intro h1 h2; simp only [ctorFull, Sto.fresh_rows, Sto.fresh_cols] at h1 h2 ⊢; rw [Sto.fresh_get, if_pos ⟨h1, h2⟩]
+  · intro hk h1 h2
+    subst hk
+    simp only [ctorFull, if_true, Sto.fresh_rows, Sto.fresh_cols] at h1 h2 ⊢
+    rw [Sto.fresh_get, if_pos ⟨h1, h2⟩]
+
+/-- Non-conservative `resize`: when the number of coefficients changes every coefficient is freshly
+    allocated (`init`); when it does not, Eigen keeps the buffer and the values stay in column-major
+    linear order. -/
+theorem resize_nonconservative_contents (s : Sto α) (r c : Nat) (init : Option α) (i j : Nat) (hi : i < r) (hj : j < c) :
+    (r * c ≠ s.rows * s.cols → (s.resizeNC r c init).get i j = init) ∧
+    (r * c = s.rows * s.cols →
+      (s.resizeNC r c init).get i j = s.get ((i + j * r) % s.rows) ((i + j * r) / s.rows)) := by
+  constructor
+  · intro h; simp only [Sto.resizeNC, if_neg h]; rw [Sto.fresh_get, if_pos ⟨hi, hj⟩]
+  · intro h; simp only [Sto.resizeNC, if_pos h]; rw [Sto.build_get, if_pos ⟨hi, hj⟩]
 
 /-! ### Non-vacuity: the hypotheses above are satisfiable on non-trivial instances -/
 
